@@ -428,8 +428,12 @@ func c18Call(op string, seq, q []byte) (obs [][2]int, panicked bool, val interfa
 	for _, g := range segs {
 		obs = append(obs, [2]int{g[0], g[1]})
 	}
+	c18LastSegs = segs
 	return
 }
+
+// c18LastSegs is the slice the last Match/Search call returned (for Hold).
+var c18LastSegs []gts.Segment
 
 // match runs one Match case. kind is "table", "row", "literal" or "multi".
 func (m c18) match(c *fw.Ctx, kind string, seq, q []byte) {
@@ -496,6 +500,9 @@ func (m c18) match(c *fw.Ctx, kind string, seq, q []byte) {
 	c.Count(enc, kind == "table" || len(definite) > 0)
 
 	obs, panicked, val, site, stack := c18Call("Match", seq, q)
+	if held := c18LastSegs; !panicked {
+		c.Hold(enc, func() string { return fmt.Sprint(held) })
+	}
 	reason, detail := "", ""
 	if !panicked {
 		reason, detail = c18Judge(seq, q, obs, false)
@@ -589,6 +596,9 @@ func (m c18) search(c *fw.Ctx, seq, q []byte) {
 	}
 	c.Count(enc, len(want) > 0)
 	obs, panicked, val, site, stack := c18Call("Search", seq, q)
+	if held := c18LastSegs; !panicked {
+		c.Hold(enc, func() string { return fmt.Sprint(held) })
+	}
 	if panicked {
 		c.ViolateX("Search:"+panicClass(site, val), enc, "no panic; "+fmt.Sprint(want), fmt.Sprint(val), stack, nil)
 		return
